@@ -78,6 +78,36 @@ static inline double d_add(double a, double b)
 #define D_EQ(a, b) d_eq((a), (b))
 #define D_NE(a, b) (!d_eq((a), (b)))
 #endif
+/* ---- <cmath> / <algorithm> / <complex> vocabulary on doubles (tools/ast2c.py prints std:: calls without a //@free rule under these names)
+ *   std::real(double x) = x, std::imag(double) = 0 (the real-scalar overloads of <complex>);
+ *   std::min(a, b) = (b < a) ? b : a,  std::max(a, b) = (a < b) ? b : a  ([alg.min.max]: the FIRST argument when neither is smaller, also for NaN);
+ *     both return `const double&`, so the printed call is `(*d_min(a, b))`: the macro yields the address of a temporary;
+ *   std::floor / std::ceil: bit-precise (CBMC's model of libm) under VERIF_FP_IEEE; in the default mode an uninterpreted function of the
+ *     argument (congruence only: NOT monotone, NOT idempotent, no relation to the argument is known). */
+static inline double d_real(double x) { return x; }
+static inline double d_imag(double x) { (void)x; return 0.0; }
+static inline double d_min_v(double a, double b) { return D_LT(b, a) ? b : a; }
+static inline double d_max_v(double a, double b) { return D_LT(a, b) ? b : a; }
+#define d_min(a, b) ((double[1]){ d_min_v((a), (b)) })
+#define d_max(a, b) ((double[1]){ d_max_v((a), (b)) })
+#ifdef VERIF_FP_IEEE
+double floor(double); double ceil(double);
+#define d_floor(x) floor(x)
+#define d_ceil(x) ceil(x)
+#else
+double __CPROVER_uninterpreted_dfloor(double);
+double __CPROVER_uninterpreted_dceil(double);
+#define d_floor(x) __CPROVER_uninterpreted_dfloor(x)
+#define d_ceil(x) __CPROVER_uninterpreted_dceil(x)
+#endif
+/* std::hash<double>: a stateless function object.  libstdc++ (bits/functional_hash.h): 0 for +0.0 and -0.0, otherwise a hash of the
+ * object representation -- modelled as an UNINTERPRETED function of the bit pattern: equal arguments give equal values and nothing else
+ * is known (in particular it is NOT assumed injective). */
+typedef struct StdHashD { char stateless; } StdHashD;
+unsigned long __CPROVER_uninterpreted_stdhash_double(unsigned long);
+#define StdHashD_ctor0() (*(StdHashD[1]){ { 0 } })
+static inline unsigned long StdHashD_call(StdHashD *h, double x)
+{ (void)h; return (d_bits(x) << 1) == 0UL ? 0UL : __CPROVER_uninterpreted_stdhash_double(d_bits(x)); }
 static inline _Bool d_finite(double x) { return x == x && x - x == 0.0; }   /* not NaN, not +-inf */
 
 /* nondeterministic values */
